@@ -195,9 +195,9 @@ def c04(tier):
     active; readers keep every view until their next quiescent state"""
     out = []
     B = bases()
-    names = ["two_level", "two_level_wide", "two_leaves", "single_leaf", "i4_full", "i16_min", "i4_three", "three_level"]
+    names = ["two_level", "two_level_wide", "two_leaves", "single_leaf", "i4_full", "i16_min", "i4_three", "three_level", "i16_full"]
     if tier == "thorough":
-        names += ["below_i16", "i16_full", "i48_min"]
+        names += ["below_i16", "i48_min", "i48_full", "i256_min"]
     for name in names:
         base = B[name]
         present = [k for k in base["univ"] if k in base["init"]]
@@ -222,6 +222,19 @@ def c04(tier):
                 out.append(dict(id="c04-%s-%s--%s" % (name, "".join(x.replace(":", "") for x in r), "".join(x.replace(":", "") for x in w)),
                                 init=base["init"], threads=[r, w],
                                 bound=2 if (tier == "thorough" or base["weight"] <= 30) else 1, base=name))
+    # a reader holding a view, a remover that leaves, and a third thread that merely leaves (never quiesces): the orphan
+    # hand-over of the leavers decides when the removed leaf is freed
+    for name in ("two_level", "two_leaves", "i4_three"):
+        base = B[name]
+        present = [k for k in base["univ"] if k in base["init"]]
+        for k in present[:2]:
+            for reader in (["q", "g:" + k, "g:" + present[-1]], ["g:" + k, "g:" + k], ["q", "g:" + k, "q", "g:" + present[-1]]):
+                for writer in (["r:" + k], ["r:" + k, "q"], ["q", "r:" + k]):
+                    for idle in ([], ["q"]):
+                        out.append(dict(id="c04-%s-leave-%s--%s--%s" % (name, "".join(x.replace(":", "") for x in reader),
+                                                                        "".join(x.replace(":", "") for x in writer), "".join(idle) or "_"),
+                                        init=base["init"], threads=[reader, writer, idle], bound=1 if tier == "quick" else 2, base=name,
+                                        shards=1 if tier == "quick" else 4))
     # two writers retiring concurrently + a reader (three threads)
     for name in ("two_level", "two_leaves"):
         base = B[name]
@@ -248,8 +261,19 @@ def c09(tier):
         univ = sorted(base["univ"])
         scans = ["s:f", "s:r"]
         bnds = [univ[0], univ[len(univ) // 2], univ[-1]]
+        # bounds that are not stored keys: just above each universe key (the seek then leaves the tree between two children)
+        gaps = []
+        for a, b in zip(univ, univ[1:] + ["ffffffffffffffff"]):
+            g = "%016x" % (int(a, 16) + 1)
+            if g < b and g not in univ:
+                gaps.append(g)
+        if tier == "quick":
+            gaps = gaps[::2]
         for b in bnds:
             scans += ["sf:%s:f" % b, "sf:%s:r" % b]
+        gap_scans = []
+        for g in gaps:
+            gap_scans += ["sf:%s:f" % g, "sf:%s:r" % g]
         scans += ["sr:%s:%s" % (univ[0], univ[-1]), "sr:%s:%s" % (univ[-1], univ[0])]
         scans += ["s:f:h1", "s:r:h2", "sf:%s:f:h1" % univ[0]]
         writers = []
@@ -260,6 +284,7 @@ def c09(tier):
             writers.append(["r:" + k, "i:" + k] if k in init else ["i:" + k, "r:" + k])
         if tier == "quick":
             scans = scans[:2] + scans[2:8:2] + scans[8:]
+        scans += gap_scans
         for s in scans:
             for w in writers:
                 out.append(dict(id="c09-%s-%s--%s" % (name, s.replace(":", ""), "".join(x.replace(":", "") for x in w)),
@@ -372,6 +397,16 @@ def qsbr(prop, tier):
                 continue
             out.append(dict(id="qsbr-2t-%s-%s" % (a or "_", b or "_"), runner="qsbr", threads=[a, b],
                             bound=3 if tier == "quick" else 4))
+        # joiners: one thread is alone in QSBR and in the middle of its quiescent states while two others start, one of
+        # them retiring, one of them taking a reference and holding it
+        for sole in ("QQ", "QQQ"):
+            for n in ("URQQ", "URQ", "UQRQ"):
+                for z in ("UQW", "UQQ", "UW"):
+                    import os as _os
+                    jb = int(_os.environ.get("VERIF_JOIN_BOUND", "2" if tier == "quick" else "3"))
+                    jd = _os.environ.get("VERIF_JOIN_DELAY", "0") == "1"
+                    out.append(dict(id="qsbr-join-%s-%s-%s" % (sole, n, z), runner="qsbr", threads=[sole, n, z],
+                                    bound=jb, delay_bounded=jd, shards=1 if tier == "quick" else 4))
     else:
         progs = qsbr_programs(2)
         sets = [c for c in itertools.combinations_with_replacement(progs, 3) if "R" in "".join(c)]
@@ -380,6 +415,11 @@ def qsbr(prop, tier):
         for a, b, c in sets:
             out.append(dict(id="qsbr-3t-%s-%s-%s" % (a or "_", b or "_", c or "_"), runner="qsbr", threads=[a, b, c],
                             bound=2 if tier == "quick" else 3))
+        # two threads, one of them retiring twice or leaving with a request of an earlier interval while the other changes
+        # the epoch (orphan hand-over racing with the epoch changer's list manipulation; several requests per interval)
+        for a in ("QRR", "QRRQ", "RQRR", "QRQR", "RRQ", "RQX", "RQP", "RQQX", "QRQX"):
+            for b in ("Q", "QQ", "QQQ", "QX", "X", "PU", "QQQQ"):
+                out.append(dict(id="qsbr-r2-%s-%s" % (a, b), runner="qsbr", threads=[a, b], bound=3 if tier == "quick" else 4))
         # threads leaving with pending requests while another changes the epoch
         for a in ("RX", "RP", "RQX", "RRX", "RQP"):
             for b in ("QQ", "QX", "X", "PU", "QQQ"):
@@ -419,8 +459,8 @@ def mutex(tier):
     three-operation programs and all triples of one- and two-operation
     programs (thorough).  All interleavings, no bound."""
     out = []
-    ops = ["g:1", "G:1", "i:1", "r:1", "g:2", "i:2", "r:2", "e", "c", "s"]
-    init = ["1"]
+    ops = ["g:1", "G:1", "i:1", "r:1", "g:2", "G:2", "i:2", "r:2", "e", "c", "s"]
+    init = ["1", "2"]  # key 2 carries a zero-length value
     progs2 = [[a, b] for a in ops for b in ops]
     if tier == "quick":
         progs2 = [p for p in progs2 if hash_det("".join(p)) % 4 == 0]
